@@ -78,7 +78,8 @@ func collectBucketCandidates(sw hydra.Swamp, hints []BucketHint) []treasure.Trea
 // path in beacon.findTimeRangeBounds and the documented SDK semantics
 // on Index.FromTime / Index.ToTime. Either or both bounds may be nil.
 func applyTimeRange(candidates []treasure.Treasure, beaconType hydra.BeaconType, fromTime, toTime *time.Time) []treasure.Treasure {
-	if fromTime == nil && toTime == nil {
+	if (fromTime == nil && toTime == nil) || beaconType == hydra.BeaconTypeKey {
+		// the time window belongs to the time-ordered indexes; the key index ignores it
 		return candidates
 	}
 	var fromNs, toNs int64
